@@ -77,6 +77,7 @@ Definition w_locale := [108;111;99;97;108;101].
 Definition w_global := [103;108;111;98;97;108].
 Definition w_locq := [108;111;99;113].
 Definition w_readck := [114;101;97;100;99;107].
+Definition w_rtrip := [114;116;114;105;112].
 
 (* does the directory part of [path] exist in the virtual file system?  (a directory entry, or the
    prefix of some stored file) *)
@@ -214,6 +215,20 @@ Definition run_line_c (w : world) (ln : bytes) : world * list bytes * bool :=
       else if is_w cmd w_write then
         let '(t, l') := with_locale true (w_loc w) (fun radix => config_write (fmt_radix fmt_double radix) c) in
         (mkWl c (w_fs w) l', [[82;32] ++ show_ret (RStr (Some t))], false)
+      else if is_w cmd w_rtrip then
+        (* C01: write, read the text into a second configuration with the same output settings, dump it,
+           write it again *)
+        let '(t1, l1) := with_locale true (w_loc w) (fun radix => config_write (fmt_radix fmt_double radix) c) in
+        let c2 := set_deffmt (set_prec (set_tab (set_options cfg_init (c_options c)) (c_tab c)) (c_prec c)) (c_deffmt c) in
+        let '(r, l2) := with_locale true l1
+                          (fun radix => config_read (atof_radix atof radix) [] c2 None t1) in
+        if is_exit r then (mkWl c (w_fs w) l2, show_rd r, true) else
+        let c3 := rd_cfg r in
+        let '(t2, l3) := with_locale true l2 (fun radix => config_write (fmt_radix fmt_double radix) c3) in
+        (mkWl c (w_fs w) l3,
+         [[82;32;114;116;32] ++ (match rd_out_ r with RdOk => [49] | _ => [48] end);
+          [87;32] ++ show_hs (Some t1)] ++ dump_tree [] (c_root c3) ++ [show_err c3; [87;32] ++ show_hs (Some t2)],
+         false)
       else if is_w cmd w_locq then
         (w, [[82;32;108;111;99;32] ++ show_hs (Some (lo_name (ls_global (w_loc w)))) ++ [32] ++
              (match ls_thread (w_loc w) with Some l => show_hs (Some (lo_name l)) | None => [45] end) ++ [32] ++
